@@ -430,4 +430,50 @@ theorem map_orderHeadFrom {β} (F : MapRow → β) (G : Order × Nat → β) (os
       have hb := h0 b (by rw [hB]; exact List.mem_cons_self)
       simp [hc, hb]
 
+/-! ### flows at an arbitrary (node, step) and the cost, in terms of the orders (used by `order_refines`) -/
+
+theorem flow_orderMapRows_node (y : Vec) (k : Nat) (o : Order) (t : Nat) :
+    (((orderMapRows name node fe g k o).filter (isDisp node t)).map (·.contrib y)).sum
+      = (((coverPos g o).filter fun i => g.idx.getD i 0 == t).map fun i => y k * o.capa * g.dt.getD i 0).sum := by
+  unfold orderMapRows
+  rw [List.filter_map, List.map_map]
+  have hp : (isDisp node t ∘ orderRow name node fe g k o) = fun i => g.idx.getD i 0 == t := by
+    funext i
+    simp [isDisp, orderRow]
+  rw [hp]
+  apply sum_map_congr'
+  intro i _
+  simp only [Function.comp, MapRow.contrib, orderRow]
+  grind
+
+theorem flow_orderMapFrom_node (y : Vec) (t : Nat) (os : List Order) : ∀ k : Nat,
+    (((orderMapFrom name node fe g k os).filter (isDisp node t)).map (·.contrib y)).sum
+      = ((os.zipIdx k).map fun p =>
+          (((coverPos g p.1).filter fun i => g.idx.getD i 0 == t).map fun i => y p.2 * p.1.capa * g.dt.getD i 0).sum).sum := by
+  induction os with
+  | nil => intro k; rfl
+  | cons o os ih =>
+    intro k
+    simp only [orderMapFrom, List.filter_append, List.map_append, List.sum_append, List.zipIdx_cons, List.map_cons,
+      List.sum_cons]
+    rw [ih (k + 1), flow_orderMapRows_node]
+
+theorem flow_orderMapFrom_other (n : String) (hn : n ≠ node) (t : Nat) (os : List Order) (k : Nat) :
+    (orderMapFrom name node fe g k os).filter (isDisp n t) = [] := by
+  rw [List.filter_eq_nil_iff]
+  intro m hm
+  obtain ⟨j, o, i, _, _, rfl⟩ := mem_orderMapFrom name node fe g os k m hm
+  simp [isDisp, orderRow]
+  intro e
+  exact absurd e.symm hn
+
+theorem costAt_map_zipIdx (f : Order → Rat) (y : Vec) (os : List Order) : ∀ k : Nat,
+    costAt (os.map f) k y = ((os.zipIdx k).map fun p => f p.1 * y p.2).sum := by
+  induction os with
+  | nil => intro k; rfl
+  | cons o os ih =>
+    intro k
+    simp only [List.map_cons, costAt, List.zipIdx_cons, List.sum_cons]
+    rw [ih (k + 1)]
+
 end EAO.OrderBook
